@@ -555,13 +555,19 @@ def _check_restore_site(ctx, func, graph, site, call, rule='C09.4'):
         val = call.args[1] if len(call.args) > 1 else None
         src = N.txt(defs.get(N.txt(val), [val])[0]) if val is not None \
             else ''
-        ctx.ob(rule, func, site, "data.get('expires'" in src,
+        if ".get('expires'" not in src and val is not None:
+            src = K.rtxt(func, val)
+        ctx.ob(rule, func, site, ".get('expires'" in src or
+               "['expires']" in src,
                'verbatim restore: the expiry comes from the stored record '
                '(%s)' % src)
     elif meth == 'force_set_identity':
         val = call.args[0]
         src = N.txt(defs.get(N.txt(val), [val])[0])
-        ctx.ob(rule, func, site, "data.get('identity'" in src,
+        if ".get('identity'" not in src:
+            src = K.rtxt(func, val)
+        ctx.ob(rule, func, site, ".get('identity'" in src or
+               "['identity']" in src,
                'forced identity comes from the stored record (%s)' % src)
     elif meth == 'put':
         # lease re-evaluated: the record must be rewritten or deleted on
@@ -572,7 +578,8 @@ def _check_restore_site(ctx, func, graph, site, call, rule='C09.4'):
             for c in C.node_calls(node):
                 if K.is_meth(c, 'put', 'delete') and \
                         (K.recv_text(c) or '').endswith('backend') and \
-                        c.args and N.txt(c.args[0]) == 'appnode':
+                        c.args and M.is_record_path(c.args[0],
+                                                    defs) is not None:
                     return True
             return False
         path = K.find_path_cp(graph, site, [loop, graph.exit],
